@@ -53,7 +53,7 @@ def select(rng, b, n_mcs, n_other, res):
     """pick fast reactions by running candidates alone at threshold 0"""
     rows = corpus.stratified_sample(rng, 80)
     cands = [r["reaction"] for r in rows] + [rx for _, rx in G.deletions(rng, 6)] + \
-            [rx for _, rx in G.redox_family(rng, 4)]
+            [rx for _, rx in G.redox_family(rng, 4)] + [rx for _, rx in G.spectator_laden(rng, 10)]
     rng.shuffle(cands)
     mcs, other = [], []
     for rx in cands:
